@@ -55,6 +55,8 @@ def run(chk):
     r5_record_links(chk, repo)
     r6_per_hit_state(chk, repo)
     r7_stale_locals(chk, repo, "C18.R7", [PULSE, RED])
+    from ..rules import dropped_parameters
+    dropped_parameters(chk, repo, "C18.R8", [PULSE, RED])
 
 
 def record_vars(f):
